@@ -86,21 +86,21 @@ HISTORY_R3 = {
  "C06-m2": "NOT CAUGHT, outside the feasible region: BitBox::from_bitslice at a non-zero offset does not finish (2400 s cap)",
  "C07-m2": "MISSED at first (strings were ASCII: char count == byte count; two harnesses timed out instead); c07q_ent_str_non_ascii added",
  "C08-m2": "MISSED at first under C08 (no Duration array among the input-kind shapes; C13's fixed-size list does catch the wrong encoded_fixed_size); c08q_in_arr_duration_1 added",
- "C09-m1": "MISSED at first (no BitVec among the hostile-count shapes); c09q_bitvec_hostile_unk / _slice added",
+ "C09-m1": "MISSED at first (no BitVec among the hostile-count shapes); a first attempt (2^29-1 bits through a four-byte prefix) only TIMED OUT under the change (inconclusive, exit 3); c09q_bitvec_no_request_before_data decides it: 63 bits through a one-byte prefix on a known-length input that is too short must not request any heap (allowance 0)",
  "C09-m2": "MISSED at first (hostile counts were never decoded through the library's wrapper inputs); c09q_wrapped_vec_* and c09q_api_limits_wide_63 added",
  "C10-m1": "MISSED at first (the ledger sees element constructions and drops, not heap blocks); live heap-block counting stubs (alloc +1 / Global::deallocate -1) with a native per-thread counterpart: c10q_blocks_*",
  "C10-m2": "MISSED at first (no transparent struct whose only sized field is skipped); STransSkipSized added, c10q_derived_*_inplace_skip / c05q_*_inplace_skip check skipped fields after Box/array decode",
- "C11-m2": "MISSED at first (vectors had <= 2 elements: one preallocation chunk); c11q_multi_chunk_vec_is_one_level added (3 elements of 2 KiB)",
+ "C11-m2": "MISSED at first, and a first attempt was wrong about the chunk size (16 KiB, not 4 KiB: three 2 KiB elements are ONE chunk); c11s_multi_chunk_vec_is_one_level: 8 KiB elements (2 per chunk), third element missing, hook log must show one descend and the limited decode must stop where the unlimited one does (needs the allocator stubs: second, stubbed run of C11)",
  "C12-m1": "MISSED at first (list elements were <= pointer size, where pointer-instead-of-element is not smaller); LinkedList<[u64;5]> added to c12q_hook_every_count",
  "C13-m1": "MISSED at first (only built-in element types, whose wire and memory sizes agree); user type Rec (5 bytes on the wire, 8 in memory) in arrays: c13q_fix_arr_user_rec",
  "C13-m2": "MISSED at first (no enum whose variants share field types but differ in attributes); EDupTypes / EDupTypes2 added to the derive family",
- "C14-m1": "MISSED at first under C14's quick tier (Compact<u16> alone only in the thorough list; C04's c04q_dec_u16 catches it as-is)",
+ "C14-m1": "MISSED at first under C14's quick tier (Compact<u16> alone only in the thorough list; C04's c04q_dec_u16 catches it as-is); c14q_pfx_compact_u8/u16/u32 added and h_prefix now also demands that the full encoding followed by other data is consumed exactly",
  "C14-m2": "MISSED at first (IoReader only under C08 and only on full-length streams); std-configuration run for C14/C18 with streams that end anywhere: c14q_ioreader_*",
- "C15-m2": "MISSED at first (batches were <= 3 items or unrepresentable); the unit-item iterator now elides the loop, so EVERY batch size is decided incl. appends that skip a prefix width class",
- "C16-m1": "MISSED at first under C16 (EncodeLike pairs were compared through encode_to only; C07's c07q_ent_arr_* catch it as-is); using_encoded/encode added to the comparison",
+ "C15-m2": "MISSED at first (batches were <= 3 items or unrepresentable); the unit-item iterator now elides the loop, so EVERY batch size is decided incl. appends that skip a prefix width class -- on the unchanged tree; UNDER THIS CHANGE five harnesses run out of memory instead (inconclusive, exit 3: not a pass, not a VIOLATION line)",
+ "C16-m1": "MISSED at first under C16 (EncodeLike pairs were compared through encode_to only and no pair had an array of primitives on the A side; C07's c07q_ent_arr_* catch it as-is); using_encoded added to every pair and c16q_arrays_of_primitives_pointer_forms added",
  "C16-m2": "NOT CAUGHT, outside the bounds (see C02-m1 of this round)",
  "C18-m1": "NOT CAUGHT, outside the bounds: needs a string > 128 bytes with a multi-byte character at a chunk boundary",
- "C18-m2": "MISSED at first (skip was never run through IoReader); c18q_ioreader_* added (std configuration)",
+ "C18-m2": "MISSED at first (skip was never run through IoReader); c18q_ioreader_* added (std configuration). Under THIS change they end inconclusive (exit 3): its std::io::copy loop needs more unwinding than the harness bound, so only unwinding assertions fail and nothing replays; the check does not pass, but prints no VIOLATION line",
  "C19-m1": "MISSED at first (CountedInput was only used for decode); c19q_unkskip_* run skip through it",
  "C19-m2": "MISSED at first (the inner input always knew its length); c19q_unkskip_* use an unknown-length inner input with truncated data",
  "C20-m1": "NOT CAUGHT and outside the engine: needs a panic inside a using_encoded closure followed by another call on the same thread (Kani models panic as abort)",
